@@ -10,14 +10,14 @@ from props.c16 import _Desc, _seq_byte
 
 LEVEL = "proof"
 MANIFEST = dict(
-    text="Lean 4 theorems, by induction over every finite history of STATP messages (any number of 4-byte records, repeated positions, the simulator's  Session 4: histories contain partial updates that arrive while a request holds the protocol lock (busy windows): application stays in arrival order and every update is acknowledged. The acknowledging handler and the apply callback of the awaitable client have no suspension point (partial_update_never_suspends over the regenerated skeletons; no_suspension_no_aw: every trace is one atomic block). Histories with a byte-identical report repeated after a refresh overwrote its positions; partial_update_path_state_inventory."
+    text="Lean 4 theorems, by induction over every finite history of STATP messages (any number of 4-byte records, repeated positions, the simulator's "
          "1-byte form) interleaved with refreshes: both clients' block equals the sequential reference (async_equals_reference for ANY stale pending list; "
          "sync_equals_reference with the invariant 'pending list empty between messages'), exactly one STATQ per STATP with a sequence number in 1..191 "
          "(through C16's counter theorems). The model is parameterised by facts re-extracted from the source on every run (record slicing arithmetic, the "
          "`self.changes = []` reset, the for-else clear, ack-before-parse, counter kind), so removing the reset or changing a slice changes the Lean term. "
          "Tie: translator facts + differential correspondence of the real long-lived handler objects (async via the real consume task on the virtual loop; "
          "threaded via stepped dispatch on a real GeckoSpa) + a sequential reference block kept by the harness (search)."
-         ' Since session 3: partial updates carry overlapping neighbour records (p, p+-1, p).',
+         ' Since session 3: partial updates carry overlapping neighbour records (p, p+-1, p). Session 4: histories contain partial updates that arrive while a request holds the protocol lock (busy windows): application stays in arrival order and every update is acknowledged. The acknowledging handler and the apply callback of the awaitable client have no suspension point (partial_update_never_suspends over the regenerated skeletons; no_suspension_no_aw: every trace is one atomic block). Histories with a byte-identical report repeated after a refresh overwrote its positions; partial_update_path_state_inventory.',
     note="Trusted: Lean kernel, translator, correspondence harness. asyncio: no other task runs between async_handle and async_handled (neither suspends). "
          "Malformed STATP bodies (short records) and observers that raise inside the threaded callback are outside the property's quantifier and the model. "
          "A STATQ arriving at the client is outside the quantifier too (the async handler would then re-apply its last change list).",
